@@ -109,6 +109,11 @@ def make_cfgs(ctx):
                 probes.add(x)
         cfgs.append(dict(id=k + 1, entry=entry, S=S, Z=Z, C=sym_pd_matrix(rng), dirs=sorted(dirs),
                          lams=[-1, 2, 7], box=2, probes=sorted(probes), pden=PDEN, mode=mode))
+    for fam in (("nacl", "naclg", "cscl"), ("wz", "tetab", "tric")):
+        for c in cfgs:
+            if c["entry"] in fam and c["mode"] == "random":
+                c["ewald"] = True
+                break
     return cfgs
 
 
@@ -132,7 +137,8 @@ def cfg_model(ctx):
     return "SPECIFICATION Spec\nCONSTANTS\n Cfgs <- MCCfgs\nCHECK_DEADLOCK FALSE\n" + \
         "".join("INVARIANT %s\n" % i for i in REQ_INVS + pre)
 
-IMPL_INVS = ["ImplBornExact", "ImplBornInvariant", "ImplBornASR", "ImplEpsInvariant", "ImplExactProjection",
+IMPL_INVS = ["ImplDipoleSum", "ImplFullTermsDipoleSum", "ImplFullTermsGammaLimit", "ImplFullTermsCommensurateNoOp",
+             "ImplFullTermsZeroBornNoOp", "ImplBornExact", "ImplBornInvariant", "ImplBornASR", "ImplEpsInvariant", "ImplExactProjection",
              "ImplGammaLimit", "ImplHomogeneous", "ImplSymmetric", "ImplRoutesAgree", "ImplCommensurateNoOp",
              "ImplZeroBornNoOp"]
 CONF_INVS = ["ConformsBornSymmetrised", "ConformsEpsSymmetrised", "ConformsBornPrimitive", "ConformsNPrim",
@@ -344,7 +350,7 @@ def replay_cfg(ctx, c, case, spec, margins, fname):
                 e7 = np.abs(d7 - d1).max() / scale0
                 margins["gamma"] = max(margins["gamma"], e1, e7)
                 if not (e1 <= TOL["gamma"] and e7 <= TOL["gamma"]):
-                    ctx.violation("nac:replay-gamma:%s" % method,
+                    ctx.violation("nac:replay-gamma:%s" % (method if route != "fullterms" else "fullterms"),
                                   "D(Gamma; n) differs from D_plain + (4 pi f/V) K(n)/sqrt(mm') or depends on |n|",
                                   dict(cfg=c, n_unit=n_u, n_prim=n_p, method=method, layout=layout, route=route,
                                        rel_err=float(e1), rel_err_lam=float(e7), unit_system=fname,
@@ -404,7 +410,7 @@ def replay_cfg(ctx, c, case, spec, margins, fname):
                     margins[key] = max(margins[key], e1)
                     zero = bool(e1 <= TOL[key])
                     if not zero:
-                        ctx.violation("nac:replay-commensurate:%s" % method,
+                        ctx.violation("nac:replay-commensurate:%s" % (method if route != "fullterms" else "fullterms"),
                                       "the correction changes the dynamical matrix at a non-zero commensurate point",
                                       dict(cfg=c, label=st["n"], image=y, q_prim=q_p, kind=kind, method=method,
                                            layout=layout, route=route, rel_dev=float(e1), tolerance=TOL[key]))
@@ -439,14 +445,81 @@ def replay_cfg(ctx, c, case, spec, margins, fname):
                 if zero_born:
                     margins[key] = max(margins[key], e1)
                     if not (e1 <= TOL[key]):
-                        ctx.violation("nac:replay-zero-born:%s" % method,
+                        ctx.violation("nac:replay-zero-born:%s" % (method if route != "fullterms" else "fullterms"),
                                       "zero Born charges change the dynamical matrix",
                                       dict(cfg=c, q_prim=q_p, method=method, layout=layout, route=route,
                                            rel_dev=float(e1), tolerance=TOL[key]))
                 runs.append(dict(method=method, layout=layout, route=route, zero=bool(e1 <= TOL[key]),
                                  active=bool(e1 > 1e-6)))
-        ev["gen"].append(dict(x=x, runs=runs))
+        ew = []
+        if c.get("ewald") and not zero_born and st is spec["generic"][0]:
+            ew = ewald_checks(ctx, c, case, zs, es, objs[("gonze", "full")], q_p, margins)
+        ev["gen"].append(dict(x=x, runs=runs, ew=ew))
     return ev
+
+
+def ewald_checks(ctx, c, case, zs, es, ph, q_p, margins):
+    """Gonze-Lee dipole-dipole term at an arbitrary q against harness/c08_ewald.py, with the specification's
+    exact symmetrised tensors."""
+    from phonopy.harmonic.dynamical_matrix import DynamicalMatrixGL
+    from harness import c08_ewald as ew
+    from harness.c08_nac import quiet
+
+    prim = ph.primitive
+    lat = np.array(prim.cell)
+    tau = np.array(prim.positions)
+    born = np.array([case.L.T @ (np.array(zs["num"][a - 1], float) / zs["den"]) @ case.Linv.T for a in case.at])
+    eps = case.L.T @ (np.array(es["num"], float) / es["den"]) @ case.L / case.a ** 2
+    qc = np.linalg.inv(lat) @ np.array(q_p, float)
+    out = []
+    # the independent sum is independent of its convergence parameter
+    a1 = ew.cbar(qc, lat, tau, eps, 1.6)
+    a2 = ew.cbar(qc, lat, tau, eps, 2.7)
+    e0 = np.abs(a1 - a2).max() / np.abs(a1).max()
+    margins["ewald_selfcheck"] = max(margins.get("ewald_selfcheck", 0.0), e0)
+    out.append(dict(what="selfcheck", ok=bool(e0 <= 1e-12)))
+    # default object: reciprocal sum only, convergence parameter Lambda (wave vectors without 2 pi: Lt = 2 pi Lambda)
+    dm = ph.dynamical_matrix
+    with quiet():
+        if dm.Gonze_nac_dataset[0] is None:
+            dm.make_Gonze_nac_dataset()
+        got = dm._get_Gonze_dipole_dipole(np.array(q_p, float), None)
+    exp = ew.dd_matrix(qc, lat, tau, eps, born, prim.masses, case.factor, 2 * np.pi * dm._Lambda, parts=("recip",))
+    e1 = np.abs(got - exp).max() / np.abs(exp).max()
+    # the object truncates its sum where exp(-G^2 tr(eps)/3 / 4 Lambda^2) = 1e-10; along the softest axis of an
+    # anisotropic dielectric tensor the neglected terms are exp(-G^2 eps_min / 4 Lambda^2) (stated precision)
+    emin = np.linalg.eigvalsh((eps + eps.T) / 2).min()
+    tol1 = max(1e-7, 3000 * np.exp(-dm._G_cutoff ** 2 * emin / 4 / dm._Lambda ** 2))
+    margins["ewald_recip/tolerance"] = max(margins.get("ewald_recip/tolerance", 0.0), e1 / tol1)
+    ctx.count(("ewald-recip", c["id"]))
+    if not (e1 <= tol1):
+        ctx.violation("nac:ewald-recip", "reciprocal dipole-dipole sum of the Gonze-Lee object differs from the "
+                      "documented formula", dict(cfg=c, q_prim=q_p, rel_err=float(e1)))
+    out.append(dict(what="recip", ok=bool(e1 <= tol1)))
+    # all terms, converged: Lambda large enough for the real-space sum to die out inside the supercell
+    emax = np.linalg.eigvalsh((eps + eps.T) / 2).max()
+    r_ws = 0.5 * min(np.linalg.norm(v) for v in np.array(ph.supercell.cell))
+    lam = max(1.0, 5.5 * np.sqrt(emax) / r_ws / (2 * np.pi))
+    gcut = lam * np.sqrt(4 * np.log(1e12) / emin)
+    try:
+        with quiet():
+            dmf = DynamicalMatrixGL(ph.supercell, prim, np.array(dm.force_constants).copy(), with_full_terms=True,
+                                    nac_params=dict(born=born, dielectric=eps, factor=case.factor, Lambda=lam,
+                                                    G_cutoff=gcut))
+            dmf.make_Gonze_nac_dataset()
+            gotf = dmf._get_Gonze_dipole_dipole(np.array(q_p, float), None)
+        expf = ew.dd_matrix(qc, lat, tau, eps, born, prim.masses, case.factor, 2.5)
+        e2 = np.abs(gotf - expf).max() / np.abs(expf).max()
+    except Exception as e:
+        ctx.violation("nac:ewald-full-raises", "Gonze-Lee object with all terms raised %r" % e, dict(cfg=c))
+        e2 = float("inf")
+    margins["ewald_full"] = max(margins.get("ewald_full", 0.0), e2 if np.isfinite(e2) else 1e300)
+    ctx.count(("ewald-full", c["id"]))
+    if not (e2 <= 1e-7):
+        ctx.violation("nac:replay-ewald:fullterms", "dipole-dipole term of DynamicalMatrixGL(with_full_terms=True) differs "
+                      "from the converged Ewald sum", dict(cfg=c, q_prim=q_p, rel_err=float(e2), Lambda=lam))
+    out.append(dict(what="full", ok=bool(e2 <= 1e-7)))
+    return out
 
 
 def event_tla(e):
@@ -457,7 +530,8 @@ def event_tla(e):
 
     gam = "{" + ", ".join("[n |-> %s, runs |-> %s]" % (to_tla(o["n"]), runs_tla(o["runs"])) for o in e["gam"]) + "}"
     comm = "{" + ", ".join("[m |-> %s, runs |-> %s]" % (to_tla(o["m"]), runs_tla(o["runs"])) for o in e["comm"]) + "}"
-    gen = "{" + ", ".join("[x |-> %s, runs |-> %s]" % (to_tla(o["x"]), runs_tla(o["runs"])) for o in e["gen"]) + "}"
+    gen = "{" + ", ".join("[x |-> %s, runs |-> %s, ew |-> %s]" % (to_tla(o["x"]), runs_tla(o["runs"]),
+                                                                  runs_tla(o["ew"])) for o in e["gen"]) + "}"
     return ("[cfg |-> %s, at |-> %s, nprim |-> %d, born |-> %s, eps |-> %s, bornPrim |-> %s,\n gam |-> %s,\n "
             "comm |-> %s,\n gen |-> %s]" % (cfg_tla(c), to_tla(e["at"]), e["nprim"], to_tla(e["born"]),
                                           to_tla(e["eps"]), to_tla(e["bornPrim"]), gam, comm, gen))
